@@ -494,6 +494,32 @@ mod string {
     }
 }
 
+mod character {
+    use super::*;
+
+    pub(crate) fn is_digit(c: char, radix: u32) -> RuntimeResult<bool, String> {
+        if (2..=36).contains(&radix) {
+            RuntimeResult::Return(c.is_digit(radix))
+        } else {
+            RuntimeResult::Panic(format!(
+                "radix must lie in the range 2..=36, found {}",
+                radix
+            ))
+        }
+    }
+
+    pub(crate) fn to_digit(c: char, radix: u32) -> RuntimeResult<Option<u32>, String> {
+        if (2..=36).contains(&radix) {
+            RuntimeResult::Return(c.to_digit(radix))
+        } else {
+            RuntimeResult::Panic(format!(
+                "radix must lie in the range 2..=36, found {}",
+                radix
+            ))
+        }
+    }
+}
+
 fn parse<T>(s: &str) -> StdResult<T, ()>
 where
     T: FromStr,
@@ -953,8 +979,8 @@ pub fn load_char(vm: &Thread) -> Result<ExternModule> {
         record! {
             from_int => primitive!(1, "std.char.prim.from_int", ::std::char::from_u32),
             to_int => primitive!(1, "std.char.prim.to_int", |c: char| c as u32),
-            is_digit => primitive!(2, std::char::prim::is_digit),
-            to_digit => primitive!(2, std::char::prim::to_digit),
+            is_digit => primitive!(2, "std::char::prim::is_digit", character::is_digit),
+            to_digit => primitive!(2, "std::char::prim::to_digit", character::to_digit),
             len_utf8 => primitive!(1, std::char::prim::len_utf8),
             len_utf16 => primitive!(1, std::char::prim::len_utf16),
             is_alphabetic => primitive!(1, std::char::prim::is_alphabetic),
